@@ -256,6 +256,18 @@ func c08(r *hx.Run) {
 			fx.B64(fx.MultihashBytes(0x12, fx.RawHash(fx.SHA512, canon))), fx.B64(fx.MultihashBytes(0x13, fx.RawHash(fx.SHA256, canon))),
 			fx.B64(append([]byte{0x11, 20}, fx.RawHash(fx.SHA256, canon)[:20]...)), fx.B64(append([]byte{0x16, 32}, fx.RawHash(fx.SHA256, canon)...)),
 			fx.B64(fx.RawHash(fx.SHA256, canon)))
+		// well-formed multihashes that carry only a PREFIX of the right digest (every length, the length byte adjusted), or the right
+		// digest followed by more bytes (length byte adjusted)
+		for _, alg := range []struct {
+			code byte
+			id   uint
+		}{{0x12, fx.SHA256}, {0x13, fx.SHA512}} {
+			digest := fx.RawHash(alg.id, canon)
+			for n := 0; n < len(digest); n++ {
+				cands = append(cands, fx.B64(append([]byte{alg.code, byte(n)}, digest[:n]...)))
+			}
+			cands = append(cands, fx.B64(append(append([]byte{alg.code, byte(len(digest) + 1)}, digest...), 0)))
+		}
 		hx.ParallelFor(len(cands), func(ci int) {
 			h := cands[ci]
 			caseID := fmt.Sprintf("C|m%d|%q", mi, h)
